@@ -267,7 +267,7 @@ harness!(avx2, 34, c07_avx2_f32_r3, max_argmax_body::<f32, U32, _, 3>(&avx2()));
 harness!(avx2, 34, c07_avx2_u8_r3, max_argmax_body::<u8, U32, _, 3>(&avx2()));
 //@ C07 extended 10800 AVX2 argmax/max, f32, 5 rows
 harness!(avx2, 34, c07_avx2_f32_r5, max_argmax_body::<f32, U32, _, 5>(&avx2()));
-//@ C07 thorough 1800 AVX2 argmax/max, u8, 5 rows
+//@ C07 quick 800 AVX2 argmax/max, u8, 5 rows
 harness!(avx2, 34, c07_avx2_u8_r5, max_argmax_body::<u8, U32, _, 5>(&avx2()));
 
 // --- dispatcher arms -------------------------------------------------------------------
@@ -293,7 +293,7 @@ harness!(vec, 10, c07_threshold_f32_r2_c4, threshold_body::<f32, U4, _, 2>(&gene
 harness!(vec, 10, c07_threshold_u8_r3_c2, threshold_body::<u8, U2, _, 3>(&generic()));
 //@ C07 quick 800 StripedScores::threshold via dispatcher (AVX2 arm), f32, 1 row, 4 symbolic cells
 harness!(avx2vec8, 34, c07_threshold_dispatch_f32_r1, threshold_dispatch_body::<f32, 1>(Dispatch::Avx2));
-//@ C07 thorough 1800 threshold (default impl), f32, 1 row x 16 columns
+//@ C07 quick 800 threshold (default impl), f32, 1 row x 16 columns
 harness!(vec, 34, c07_threshold_f32_r1_c16, threshold_body::<f32, U16, _, 1>(&generic()));
 //@ C07 quick 800 StripedScores::threshold via dispatcher (generic arm), u8, 2 rows
 harness!(avx2vec8, 66, c07_threshold_dispatch_u8_r2, threshold_dispatch_body::<u8, 2>(Dispatch::Generic));
